@@ -506,7 +506,13 @@ impl<const K: usize> AffTree<K> {
         match &parent_node.value.state {
             NodeState::Infeasible => return false,
             NodeState::FeasibleWitness(wit) => {
-                if wit.iter().any(|point| poly.contains(point)) {
+                // as in phase_inh: the absolute tolerance of ``contains`` is too generous on rows
+                // with a short normal vector, so the normalized rows are tested as well
+                let unit_poly = poly.clone().normalize();
+                if wit
+                    .iter()
+                    .any(|point| poly.contains(point) && unit_poly.contains(point))
+                {
                     return true;
                 }
             }
